@@ -56,6 +56,9 @@ RR_SCRIPTS = {
     'deep-rr-112': (dict(rock_ridge='1.12'), [('dir', p, p.rsplit('/', 1)[1].lower() + '-' + 'l' * 40 * (i % 3), None) for i, p in enumerate(DEEP)] +
                     [('dir', DEEP[-1] + '/D9', 'd9', None), ('file', DEEP[-1] + '/D9/X.;1', 'x' * 200, None, 3), ('file', DEEP[-1] + '/Y.;1', 'y', None, 4),
                      ('dir', '/D1/D2/D3/D4/D5/D6/D7/E8', 'e8', None), ('file', '/D1/D2/D3/D4/D5/D6/D7/E8/Z.;1', 'z', None, 5)]),
+    # names and targets that fill one continuation block almost completely (beyond that they are refused: K73)
+    'rr-one-block-limit': (dict(rock_ridge='1.09'), [('file', '/A.;1', 'a' * 2100, None, 5), ('symlink', '/S.;1', 's', 't' * 2080), ('dir', '/D', 'd' * 2000, None),
+                                                     ('file', '/D/B.;1', 'b' * 1000, None, 2049), ('symlink', '/D/T.;1', 'n' * 1000, 'u' * 1000)]),
     # symbolic link targets with doubled, leading and trailing slashes (components without a name) and dots
     'rr-symlink-shapes': (dict(rock_ridge='1.09'), [('dir', '/D', 'd', None)] + [('symlink', '/S%d.;1' % i, 's%d' % i, t) for i, t in enumerate(
         ['a/', 'a//b', './', '../', '///', '/a//', '.', '..', '/', 'a/./b', '//a', '/..', 'x' * 255 + '//' + 'y'])]),
